@@ -133,6 +133,17 @@ def engine_roles(c, flavour, cache=False):
                 raise RuntimeError("resolver down (awaitable)")
             return later()
 
+    class _Later:                             # awaitable only through __await__
+        def __init__(self, roles):
+            self.roles = roles
+
+        def __await__(self):
+            return AsyncR().expand(self.roles).__await__()
+
+    class CustomAwaitableR:
+        def expand(self, roles):
+            return _Later(roles)
+
     class DefCoroutineR:                      # plain def delegating to an async implementation
         def expand(self, roles):
             return AsyncR().expand(roles)
@@ -150,7 +161,8 @@ def engine_roles(c, flavour, cache=False):
     pol = {"algorithm": "deny-overrides", "rules": rules}
     sink = Sink()
     res = {"sync": SyncR, "async": AsyncR, "raising": RaisingR, "raising-async": AsyncRaisingR,
-           "raising-awaitable": DefRaisingAwaitableR, "def-coroutine": DefCoroutineR}[flavour]()
+           "raising-awaitable": DefRaisingAwaitableR, "def-coroutine": DefCoroutineR,
+           "custom-awaitable": CustomAwaitableR}[flavour]()
     kw = {}
     if cache:
         from rbacx.core.cache import DefaultInMemoryCache
@@ -202,7 +214,7 @@ def check_cases(chk, cases, replay=False):
     msub = _model_expand(sub)
     for c, m in zip(sub, msub):
         for flavour, cache in (("sync", False), ("async", False), ("raising", False), ("sync", True), ("async", True),
-                               ("raising-async", False), ("raising-awaitable", False), ("def-coroutine", False),
+                               ("raising-async", False), ("raising-awaitable", False), ("def-coroutine", False), ("custom-awaitable", False),
                                ("raising-async", True)):
             seen, audit, universe = engine_roles(c, flavour, cache)
             own = list(c["roles"] or [])
